@@ -514,7 +514,9 @@ def poisson_case(ctx, pid, par, perm_internal, muts, G_or_grid, Ne, mu, eps, seq
     post = np.array(post.tolist(), dtype=float).reshape(N, G)
     for u in sorted(internal):
         want = np.array(decl[u]) / sum(decl[u])
-        if not close(post[u], want, rt) and not np.allclose(post[u], want, rtol=rt, atol=1e-300):
+        # atol: the float mirror multiplies un-standardised factors and may underflow to 0 where
+        # the code (which standardises after every node) keeps a denormal-scale probability
+        if not (np.all(np.isfinite(post[u])) and np.allclose(post[u], want, rtol=rt, atol=1e-200)):
             ctx.violation(f"{pid}/inside_outside/{space}/posterior", inst,
                           f"node_posteriors()[{u}] = {post[u].tolist()} but exact marginal {want.tolist()}",
                           subcheck="poisson")
